@@ -394,6 +394,52 @@ func runNonBoolean(modality string, n int) period3Case {
 	return period3Case{Name: modality, Trace: tr, Codes: reportsOf(&res, "al"), Panic: problem(&res, false)}
 }
 
+// runSharedPredicate: two auditors with the SAME predicate text over a variable
+// that a member declared BETWEEN them computes from the sample of the round:
+// `al` (before) sees the value of the previous round, `bo` (after) the value of
+// this round; in the final round both see the last value.  Each is judged on
+// its own observations.
+func runSharedPredicate(modality string, tr []bool) []periodCase {
+	// members are ordered by first mention: al, mid, bo
+	cfg := roleText + "audience\n  al audits throughout\n" +
+		"  mid computes v as [x s]\n" +
+		"  al expects " + modality + ": v > 3\n" +
+		"  bo audits throughout\n  bo expects " + modality + ": v > 3\nend\n"
+	var evs []cmd.VerifEvent
+	ts := 0.0
+	for _, b := range tr {
+		ts += 0.5
+		evs = append(evs, sample(ts, b))
+	}
+	evs = append(evs, cmd.VerifEvent{Kind: "final", Ts: ts + 1.2871})
+	res := cmd.VerifAuditLoop(cfg, evs, false)
+	// al: nothing in the first round (v not assigned yet), then the previous round's value, and the last one in the final round
+	alObs := append([]bool(nil), tr...)
+	boObs := append([]bool(nil), tr...)
+	if len(tr) > 0 {
+		boObs = append(boObs, tr[len(tr)-1])
+	}
+	return []periodCase{
+		{Name: modality, Trace: alObs, Codes: reportsOf(&res, "al"), Panic: problem(&res, false)},
+		{Name: modality, Trace: boObs, Codes: reportsOf(&res, "bo"), Panic: problem(&res, false)},
+	}
+}
+
+// runOnlyHelps: an auditor that `only helps` (no plot of its own) is judged
+// and reported like any other.
+func runOnlyHelps(modality string, tr []bool) periodCase {
+	cfg := roleText + "audience\n  al audits throughout\n  al expects " + modality + ": [x s] > 3\n  al only helps\nend\n"
+	var evs []cmd.VerifEvent
+	ts := 0.0
+	for _, b := range tr {
+		ts += 0.5
+		evs = append(evs, sample(ts, b))
+	}
+	evs = append(evs, cmd.VerifEvent{Kind: "final", Ts: ts + 1.2871})
+	res := cmd.VerifAuditLoop(cfg, evs, false)
+	return periodCase{Name: modality, Trace: tr, Codes: reportsOf(&res, "al"), Panic: problem(&res, false)}
+}
+
 type period3Case struct {
 	Name  string
 	Trace []int // 0 false, 1 true, 2 the predicate does not evaluate
@@ -528,6 +574,10 @@ func main() {
 					tr[i] = bits&(1<<uint(i)) != 0
 				}
 				audPeriods = append(audPeriods, runThroughout(n, tr))
+				if l >= 2 {
+					audPeriods = append(audPeriods, runSharedPredicate(n, tr)...)
+					audPeriods = append(audPeriods, runOnlyHelps(n, tr))
+				}
 				if l >= 1 {
 					audPeriods = append(audPeriods, runWithFailingNeighbour(n, tr))
 				}
